@@ -190,6 +190,11 @@ class World:
                          create_default_user=False, wss=False)
         app.config["BLOB_FOLDER"] = str(self.blob_dir)
         self.app = app
+        # template compilation cache shared by the app objects of one worker (pure speed-up)
+        import jinja2
+        cache_dir = SCRATCH_ROOT / "jinja-cache"
+        cache_dir.mkdir(parents=True, exist_ok=True)
+        app.jinja_env.bytecode_cache = jinja2.FileSystemBytecodeCache(str(cache_dir))
         flask.got_request_exception.connect(self._on_exception, app)
         simclock.rescan()
 
